@@ -75,6 +75,7 @@ type Setup struct {
 	Static    *StaticSpec
 	Svc       bool
 	FinalEcho bool
+	Wrapper   bool         // a HandlerWrapper (identity) is installed before the routes are registered
 	EnvLate   bool         // the environment is switched to Env only after set-up (middleware constructed under another one)
 	Routes    []*RouteSpec // flattened, in registration order
 }
@@ -132,6 +133,7 @@ type Profile struct {
 	StaticPm     int
 	SvcPm        int
 	EnvLatePm    int
+	WrapperPm    int
 	TwinMethodPm int // a route gets a sibling registration of the same path for another method, with its own handlers
 	GroupPm      int
 	ActionPm     int
@@ -201,6 +203,7 @@ func GenSetup(g *tape.Stream, p *Profile) *Setup {
 	defer g.End()
 	s.Env = p.Envs[g.Intn(len(p.Envs))]
 	s.EnvLate = g.Chance(p.EnvLatePm)
+	s.Wrapper = g.Chance(p.WrapperPm)
 	haveRender := false
 	recoveryPlaced := false
 	wantRecovery := p.RecoveryMust || g.Chance(p.RecoveryPm)
